@@ -437,7 +437,7 @@ func (w *c37World) checkRing(what string, r *ring) {
 	e := w.e
 	set := w.keysOfCur()
 	n := len(r.items)
-	if uint64(n) < w.cur.Min || uint64(n) > w.cur.Max+1 /*TEMP-DEV*/ {
+	if uint64(n) < w.cur.Min || uint64(n) > w.cur.Max {
 		e.Violate("rider_ring_size", "%s: ring of %d entries for bounds [%d,%d] (%d endpoints)", what, n, w.cur.Min, w.cur.Max, len(set))
 	}
 	counts := map[string]int{}
